@@ -189,11 +189,17 @@ add(
     "protect_from_overwrite run against a symbolic file system (target is file / directory / non-empty, parent is a file, "
     "allow_overwrite: solver booleans) for explicit / inferred / unknown / missing formats and plugins that write or fail "
     "midway; on every path: exists and not allow_overwrite => FileExistsError, no plugin write, target not created, the "
-    "check precedes plugin lookup; otherwise the resolved plugin is called exactly once. Run numbering / latest-result "
-    "lookup: see the 'runs' configurations (string encoding) when present in the evidence file.",
+    "check precedes plugin lookup; otherwise the resolved plugin is called exactly once. Run numbering (inductive step): the "
+    "current source of previous_result_paths / create_result_run_name / _latest_result_path_fallback / "
+    "get_latest_result_path is interpreted from its AST over z3 strings (symbolic result name and folder names over an "
+    "8-letter alphabet, run numbers enumerated): saving never raises, the new folder is fresh and numbered max+1 over the "
+    "runs of exactly that name, latest-result lookups resolve to the highest run of exactly that name.",
     "pathlib.Path / os.listdir inside io_plugin_utils are replaced by a shim answering from solver booleans; byte identity is "
-    "not modelled (claim: no write call reached). " + COMMON_NOTE,
+    "not modelled (claim: no write call reached). String part: names <= 9 characters over 'ab_run01', <= 2 existing run folders, "
+    "str.replace exact only where the remainder does not contain the prefix again, z3 4.8.12 string solver with valid lemma "
+    "hints; two-folder create queries are thorough-tier and may be inconclusive. " + COMMON_NOTE,
     "3/C18",
+    "symbolic execution over a symbolic file system (symx) + AST->SMT string interpretation of the run-numbering source, z3",
 )
 
 add(
